@@ -765,3 +765,110 @@ pub fn run_with(alpha: Vec<Op17>, depth: usize, deadline: std::time::Instant, th
     st.states = seen.len() as u64;
     (st, sample.into_iter().collect())
 }
+
+// ---------------------------------------------------------------------------
+// many registered types: tables of 1..=24 distinct types (different sizes), every type looked up after every
+// registration, repeated registrations at every size, iteration over worlds holding every other type
+// ---------------------------------------------------------------------------
+
+pub struct Mk<const K: usize>(pub [u8; K], pub u64);
+impl<const K: usize> Obj for Mk<K> {
+    fn tag(&self) -> u8 {
+        K as u8
+    }
+    fn addr(&self) -> usize {
+        self as *const Mk<K> as usize
+    }
+    fn bump(&mut self) {
+        self.1 += 1
+    }
+    fn count(&self) -> u64 {
+        self.1
+    }
+}
+unsafe impl<const K: usize> CastFrom<Mk<K>> for dyn Obj {
+    fn cast(t: *mut Mk<K>) -> *mut Self {
+        t
+    }
+}
+
+macro_rules! per_k {
+    ($k:expr, $f:ident, $($arg:expr),*) => {
+        match $k {
+            0 => $f::<0>($($arg),*), 1 => $f::<1>($($arg),*), 2 => $f::<2>($($arg),*), 3 => $f::<3>($($arg),*), 4 => $f::<4>($($arg),*), 5 => $f::<5>($($arg),*),
+            6 => $f::<6>($($arg),*), 7 => $f::<7>($($arg),*), 8 => $f::<8>($($arg),*), 9 => $f::<9>($($arg),*), 10 => $f::<10>($($arg),*), 11 => $f::<11>($($arg),*),
+            12 => $f::<12>($($arg),*), 13 => $f::<13>($($arg),*), 14 => $f::<14>($($arg),*), 15 => $f::<15>($($arg),*), 16 => $f::<16>($($arg),*), 17 => $f::<17>($($arg),*),
+            18 => $f::<18>($($arg),*), 19 => $f::<19>($($arg),*), 20 => $f::<20>($($arg),*), 21 => $f::<21>($($arg),*), 22 => $f::<22>($($arg),*), _ => $f::<23>($($arg),*),
+        }
+    };
+}
+fn mk_register<const K: usize>(t: &mut MetaTable<dyn Obj>) {
+    t.register::<Mk<K>>()
+}
+fn mk_insert<const K: usize>(w: &mut World) {
+    w.insert(Mk::<K>([0; K], 0))
+}
+fn mk_get<const K: usize>(t: &MetaTable<dyn Obj>, w: &mut World) -> Option<(u8, bool)> {
+    let res = w.get_mut_raw(ResourceId::new::<Mk<K>>())?;
+    let addr = res as *mut dyn Resource as *mut u8 as usize;
+    t.get(res).map(|o| (o.tag(), o.addr() == addr))
+}
+
+/// returns the number of (table size, probe) cases
+pub fn many_types_sweep(col: &mut Collector) -> u64 {
+    let mut cases = 0u64;
+    for repeat_at in 0..=24usize {
+        // register types 0..n one after the other; when the table holds `repeat_at` types, register its first,
+        // middle and last type once more (a repeat must change nothing)
+        let mut t: MetaTable<dyn Obj> = MetaTable::new();
+        let mut w = World::empty();
+        for k in 0..24usize {
+            per_k!(k, mk_insert, &mut w);
+        }
+        for n in 1..=24usize {
+            per_k!(n - 1, mk_register, &mut t);
+            if n == repeat_at {
+                for r in [0, n / 2, n - 1] {
+                    per_k!(r, mk_register, &mut t);
+                }
+            }
+            cases += 1;
+            let mut bad: Option<String> = None;
+            let r = catch_unwind(AssertUnwindSafe(|| {
+                for k in 0..24usize {
+                    let got = per_k!(k, mk_get, &t, &mut w);
+                    let want = if k < n { Some((k as u8, true)) } else { None };
+                    if got != want {
+                        return Some(format!("get on a resource of type #{} gives {:?} (tag, same address), expected {:?}", k, got, want));
+                    }
+                }
+                let tags: Vec<u8> = t.iter(&w).map(|o| o.tag()).collect();
+                let want: Vec<u8> = (0..n as u8).collect();
+                if tags != want {
+                    return Some(format!("iter yields types {:?}, expected {:?}", tags, want));
+                }
+                let tags: Vec<u8> = t.iter_mut(&w).map(|o| o.tag()).collect();
+                if tags != want {
+                    return Some(format!("iter_mut yields types {:?}, expected {:?}", tags, want));
+                }
+                None
+            }));
+            match r {
+                Ok(None) => {}
+                Ok(Some(e)) => bad = Some(e),
+                Err(p) => bad = Some(format!("panicked: {}", payload_str(&*p))),
+            }
+            if let Some(e) = bad {
+                col.add(Finding {
+                    prop: "C17".into(),
+                    sig: "many-types-table-wrong".into(),
+                    msg: format!("table of {} distinct registered types (first / middle / last registered again at size {}): {}", n, repeat_at, e),
+                    replay: json!({"kind":"c17-many-types","n":n,"repeat_at":repeat_at}),
+                    size: n,
+                });
+                break;
+            }
+        }
+    }
+    cases
+}
